@@ -8,6 +8,8 @@ import PygModel.USet
 import PygModel.DictCall
 import PygProofs.Lemmas.USetLemmas
 import PygProofs.Lemmas.DictCallLemmas
+import PygProofs.Lemmas.DictCallOrder
+import PygProofs.Lemmas.DAHeapLemmas
 
 namespace Pyg.Props.C16
 open Pyg Pyg.USet Pyg.DA Pyg.DictCall
@@ -337,12 +339,9 @@ theorem call_cycle_raises (d consts : Env V) (cs : List (String × Fn V)) (S : L
     call d consts cs = .error .value ∨ call d consts cs = .error .type :=
   loop_closed_raises S a b ha hb hab _ _ cs (Nat.le_refl _) hS
 
-/-- PARTIAL (evaluation-order independence): the callables that are ready in a round are the same
-for every keyword order.  Not proved: that evaluating one round's (mutually independent) callables
-in two orders gives the same mapping, and hence that `call` is invariant under permutations of the
-keyword list; this is sampled exhaustively (all graphs on ≤ 3 derived keys in all orders in quick,
-≤ 4 in thorough) and by random permutations. -/
-theorem call_rounds_order_independent_partial (cs cs' : List (String × Fn V)) (h : cs.Perm cs') :
+/-- the callables that are ready in a round, and those left for later rounds, are the same sets for
+every keyword order (first step of `call_keyword_order_independent`) -/
+theorem call_rounds_order_independent (cs cs' : List (String × Fn V)) (h : cs.Perm cs') :
     (cs.filter (independent (cs.map (·.1)))).Perm (cs'.filter (independent (cs'.map (·.1)))) ∧
     (cs.filter fun c => !independent (cs.map (·.1)) c).Perm
       (cs'.filter fun c => !independent (cs'.map (·.1)) c) := by
@@ -352,6 +351,107 @@ theorem call_rounds_order_independent_partial (cs cs' : List (String × Fn V)) (
   rw [e]
   exact ⟨h.filter _, h.filter _⟩
 
+/-- KEYWORD ORDER.  For every mapping `d` and every two orders of the same keyword list (keyword
+names are distinct; `consts` the plain values, `cs` the callables) `d(**kwargs)` has the same
+outcome: the same error kind, or mappings that hold the same value under every key (`ResEq`; python
+`==` on dicts does not compare insertion order).  No acyclicity is needed for this part: circular
+or ill-scoped definitions fail the same way in every order. -/
+theorem call_keyword_order_independent (d consts consts' : Env V) (cs cs' : List (String × Fn V))
+    (hcn : (consts.map (·.1)).Nodup) (hc : consts.Perm consts')
+    (hn : (cs.map (·.1)).Nodup) (hp : cs.Perm cs') :
+    ResEq (call d consts cs) (call d consts' cs') := by
+  unfold call
+  rw [← hp.length_eq]
+  exact loop_perm _ _ _ cs cs' (Nat.le_refl _) hn hp (setAll_perm d hcn hc)
+
+/-- DEPENDENCY ORDER.  If the dependency graph of the callables (edges: declared argument names that
+are themselves pending callables) is acyclic and has no self-loop, then
+(a) the definitions can be put in dependency order,
+(b) for EVERY permutation of the keyword list, `d(**kwargs)` has the outcome of plain sequential
+    evaluation `for k, f in ts: res[k] = res.apply(f)` in ANY dependency order `ts` (in particular all
+    dependency orders agree, and `ValueError` is never raised), and
+(c) all keyword orders agree. -/
+theorem call_order_independent (d consts consts' : Env V) (cs cs' : List (String × Fn V))
+    (hcn : (consts.map (·.1)).Nodup) (hc : consts.Perm consts')
+    (hn : (cs.map (·.1)).Nodup) (hp : cs.Perm cs') (hac : Acyclic cs) :
+    (∃ ts, ts.Perm cs ∧ Topo ts) ∧
+    (∀ ts, ts.Perm cs → Topo ts →
+      ResEq (call d consts' cs') (evalAll (setAll d consts) ts)) ∧
+    ResEq (call d consts' cs') (call d consts cs) := by
+  have hperm := call_keyword_order_independent d consts consts' cs cs' hcn hc hn hp
+  refine ⟨(acyclic_iff_exists_topo cs hn).1 hac, fun ts hts ht => ?_, hperm.symm⟩
+  exact hperm.symm.trans (loop_eq_topo _ _ cs ts (Nat.le_refl _) hn hts ht)
+
+/-- WHAT IS COMPUTED.  Over an acyclic set of definitions the returned mapping is THE solution of
+the definitions: keys that are not derived keep the value of `{**d, **consts}`, and every derived
+key holds its function applied to the FINAL values of its declared arguments (so a dependent of a
+callable that redefines an existing key of `d` sees the new value); that solution is unique.  The
+call fails exactly when some declared argument is neither a derived key nor a key of
+`{**d, **consts}`, and then with `TypeError`. -/
+theorem call_spec (d consts : Env V) (cs : List (String × Fn V)) (hn : (cs.map (·.1)).Nodup)
+    (hac : Acyclic cs) :
+    (∀ r, call d consts cs = .ok r →
+      Spec (setAll d consts) cs r ∧ ∀ r', Spec (setAll d consts) cs r' → EnvEq r r') ∧
+    (∀ e, call d consts cs = .error e ↔ e = .type ∧ Missing (setAll d consts) cs) := by
+  obtain ⟨ts, hts, ht⟩ := (acyclic_iff_exists_topo cs hn).1 hac
+  have hnt : (ts.map (·.1)).Nodup := (hts.map _).nodup_iff.2 hn
+  have hm : ∀ c, c ∈ ts ↔ c ∈ cs := fun c => hts.mem_iff
+  have hres : ResEq (call d consts cs) (evalAll (setAll d consts) ts) :=
+    loop_eq_topo _ _ cs ts (Nat.le_refl _) hn hts ht
+  constructor
+  · intro r hr
+    obtain ⟨r0, hr0, he⟩ := hres.ok_left hr
+    have hs0 : Spec (setAll d consts) ts r := (evalAll_topo_spec ts _ r0 hnt ht hr0).of_envEq he
+    refine ⟨hs0.congr (EnvEq.refl _) hm, fun r' hs' => ?_⟩
+    exact Spec.unique ht (EnvEq.refl _) hm hs0 hs'
+  · intro e
+    rw [hres.error_iff e]
+    constructor
+    · intro he
+      exact ⟨evalAll_err ts _ e he,
+        ((evalAll_topo_error_iff ts _ ht).1 ⟨e, he⟩).congr (EnvEq.refl _) hm⟩
+    · rintro ⟨rfl, hmiss⟩
+      obtain ⟨e', he'⟩ := (evalAll_topo_error_iff ts _ ht).2
+        (hmiss.congr (EnvEq.refl _) fun c => (hm c).symm)
+      rw [he', evalAll_err ts _ e' he']
+
+/-- CIRCULAR DEFINITIONS, iff form.  `ValueError` is raised only if some set of at least two pending
+keys is closed under "reads a member of the set"; conversely (`call_cycle_raises`) such a set makes
+the call fail, and with `ValueError` when every declared argument is in scope (`WellScoped`: a
+pending key other than the callable's own, or a key of `{**d, **consts}`), because then no round
+can raise `TypeError`.  Under `WellScoped` the call therefore returns a mapping exactly when there
+is no such set. -/
+theorem call_cycle_raises_iff (d consts : Env V) (cs : List (String × Fn V))
+    (hn : (cs.map (·.1)).Nodup) :
+    (call d consts cs = .error .value →
+      ∃ (S : List String) (a b : String), a ∈ S ∧ b ∈ S ∧ a ≠ b ∧ Closed S cs) ∧
+    (WellScoped (setAll d consts) cs →
+      ((call d consts cs = .error .value ↔
+        ∃ (S : List String) (a b : String), a ∈ S ∧ b ∈ S ∧ a ≠ b ∧ Closed S cs) ∧
+       ((∃ r, call d consts cs = .ok r) ↔
+        ¬ ∃ (S : List String) (a b : String), a ∈ S ∧ b ∈ S ∧ a ≠ b ∧ Closed S cs))) := by
+  have h1 := loop_value_closed cs.length (setAll d consts) cs hn
+  refine ⟨h1, fun hw => ?_⟩
+  have hnt := loop_no_type_error cs.length (setAll d consts) cs (Nat.le_refl _) hw
+  have h2 : (∃ (S : List String) (a b : String), a ∈ S ∧ b ∈ S ∧ a ≠ b ∧ Closed S cs) →
+      call d consts cs = .error .value := by
+    rintro ⟨S, a, b, ha, hb, hab, hS⟩
+    rcases call_cycle_raises d consts cs S a b ha hb hab hS with h | h
+    · exact h
+    · exact absurd h hnt
+  refine ⟨⟨h1, h2⟩, ?_⟩
+  constructor
+  · rintro ⟨r, hr⟩ hS
+    have := h2 hS
+    rw [hr] at this; cases this
+  · intro hno
+    cases hr : call d consts cs with
+    | ok r => exact ⟨r, rfl⟩
+    | error e =>
+      rcases loop_err _ _ _ e hr with rfl | rfl
+      · exact absurd (h1 hr) hno
+      · exact absurd hr hnt
+
 /-- a single callable is evaluated on the values found by name -/
 theorem call_single (d : Env V) (k : String) (f : Fn V) :
     call d [] [(k, f)] = (apply d f).map fun v => set k v d := by
@@ -360,6 +460,123 @@ theorem call_single (d : Env V) (k : String) (f : Fn V) :
   cases apply d f <;> rfl
 
 end dictcall
+
+section daheap
+open Pyg.DAHeap
+variable {V : Type}
+
+/-- FRAME.  No operation changes an existing handle other than the target of an in-place operation
+(`d[k] = v`, `d.k = v`, `del d[k]`, `del d.k`): every operator (`copy - & + [[..]] relabel`) and
+every read leaves all existing objects exactly as they were, and a failing operation changes
+nothing at all. -/
+theorem da_frame (heap : Heap V) (op : DAHeap.Op V) (i : Nat) (hi : i < heap.length)
+    (ht : op.target ≠ some i) : (exec heap op)[i]? = heap[i]? := by
+  unfold exec
+  cases h : DAHeap.step heap op with
+  | error e => rfl
+  | ok r =>
+    obtain ⟨heap', out⟩ := r
+    rcases step_shape heap heap' op out h with ⟨d, rfl, _, _⟩ | ⟨t, d, d', htg, _, rfl, _, _⟩ | ⟨rfl, _⟩
+    · exact List.getElem?_append_left hi
+    · have : t ≠ i := fun e => ht (e ▸ htg)
+      exact List.getElem?_set_ne this
+    · rfl
+
+/-- an operator allocates exactly one handle (its result, at the end of the heap) when it succeeds;
+in-place operations and reads allocate nothing; an in-place operation keeps the class of its target -/
+theorem da_alloc (heap : Heap V) (op : DAHeap.Op V) :
+    ((exec heap op).length = heap.length ∨
+      (op.target = none ∧ (exec heap op).length = heap.length + 1)) ∧
+    ∀ t, op.target = some t → ((exec heap op)[t]?).map (·.cls) = (heap[t]?).map (·.cls) := by
+  unfold exec
+  cases h : DAHeap.step heap op with
+  | error e => exact ⟨Or.inl rfl, fun _ _ => rfl⟩
+  | ok r =>
+    obtain ⟨heap', out⟩ := r
+    rcases step_shape heap heap' op out h with ⟨d, rfl, _, hn⟩ | ⟨t, d, d', htg, hd, rfl, hc, _⟩ | ⟨rfl, hn⟩
+    · exact ⟨Or.inr ⟨hn, by simp⟩, fun t ht => by simp [hn] at ht⟩
+    · refine ⟨Or.inl (by simp), fun t' ht' => ?_⟩
+      rw [htg] at ht'; cases ht'
+      have hlt : t < heap.length := by
+        rcases Nat.lt_or_ge t heap.length with h | h
+        · exact h
+        · rw [List.getElem?_eq_none h] at hd; cases hd
+      simp only [List.getElem?_set_self hlt, hd, Option.map_some, hc]
+    · exact ⟨Or.inl rfl, fun t ht => by simp [hn] at ht⟩
+
+/-- ATTRIBUTE ACCESS MIRRORS ITEM ACCESS: `d.k` is `d[k]`, `d.k = v` is `d[k] = v`, `del d.k` is
+`del d[k]` — same result, same effect on the heap — except that a missing key is reported as
+`AttributeError` instead of `KeyError` (`asAttr`). -/
+theorem da_attr_mirrors_item (heap : Heap V) (h : Nat) (k : String) (v : V) :
+    DAHeap.step heap (.getAttr h k) = asAttr (DAHeap.step heap (.getItem h k)) ∧
+    DAHeap.step heap (.setAttr h k v) = DAHeap.step heap (.setItem h k v) ∧
+    DAHeap.step heap (.delAttr h k) = asAttr (DAHeap.step heap (.delItem h k)) := by
+  refine ⟨?_, rfl, ?_⟩
+  · simp only [DAHeap.step, bind, Except.bind, pure, Except.pure, deref]
+    cases heap[h]? with
+    | none => rfl
+    | some d =>
+      dsimp only
+      cases getKey d k with
+      | error e => cases e <;> rfl
+      | ok v => rfl
+  · simp only [DAHeap.step, bind, Except.bind, pure, Except.pure, deref]
+    cases heap[h]? with
+    | none => rfl
+    | some d =>
+      dsimp only
+      cases delKey d k with
+      | error e => cases e <;> rfl
+      | ok v => rfl
+
+/-- item assignment and deletion write exactly one key of exactly one object -/
+theorem da_setitem (heap : Heap V) (h : Nat) (k : String) (v : V) (d : D V) (hd : heap[h]? = some d) :
+    ∃ d', (exec heap (.setItem h k v))[h]? = some d' ∧ d'.cls = d.cls ∧
+      ∀ j, lookup j d'.items = if j = k then some v else lookup j d.items := by
+  have hlt : h < heap.length := by
+    rcases Nat.lt_or_ge h heap.length with h' | h'
+    · exact h'
+    · rw [List.getElem?_eq_none h'] at hd; cases hd
+  refine ⟨{ d with items := set k v d.items }, ?_, rfl, fun j => lookup_set j k v d.items⟩
+  simp [exec, DAHeap.step, deref, hd, bind, Except.bind, pure, Except.pure, List.getElem?_set_self hlt]
+
+theorem da_delitem (heap : Heap V) (h : Nat) (k : String) (d : D V) (hd : heap[h]? = some d) :
+    (lookup k d.items = none → DAHeap.step heap (.delItem h k) = .error .key) ∧
+    (lookup k d.items ≠ none → ∃ d', (exec heap (.delItem h k))[h]? = some d' ∧ d'.cls = d.cls ∧
+      ∀ j, lookup j d'.items = if j = k then none else lookup j d.items) := by
+  have hlt : h < heap.length := by
+    rcases Nat.lt_or_ge h heap.length with h' | h'
+    · exact h'
+    · rw [List.getElem?_eq_none h'] at hd; cases hd
+  constructor
+  · intro hn
+    simp [DAHeap.step, deref, hd, delKey, hn, bind, Except.bind, pure, Except.pure, throw, throwThe,
+      MonadExceptOf.throw]
+  · intro hs
+    refine ⟨subKey d k, ?_, rfl, fun j => lookup_filter_ne j k d.items⟩
+    cases hl : lookup k d.items with
+    | none => exact absurd hl hs
+    | some w =>
+      simp [exec, DAHeap.step, deref, hd, delKey, hl, bind, Except.bind, pure, Except.pure,
+        List.getElem?_set_self hlt]
+
+/-- invariant over ANY history: the keys of every object are distinct -/
+theorem da_keys_nodup (ops : List (DAHeap.Op V)) : ∀ d ∈ DAHeap.run ops, (keys d).Nodup := by
+  suffices h : ∀ (ops : List (DAHeap.Op V)) (heap : Heap V), (∀ d ∈ heap, (keys d).Nodup) →
+      ∀ d ∈ ops.foldl exec heap, (keys d).Nodup from h ops [] (by simp)
+  intro ops
+  induction ops with
+  | nil => intro heap inv; simpa using inv
+  | cons op ops ih =>
+    intro heap inv
+    simp only [List.foldl_cons]
+    apply ih
+    unfold exec
+    cases h : DAHeap.step heap op with
+    | error e => exact inv
+    | ok r => exact step_keys_nodup heap r.1 op r.2 inv h
+
+end daheap
 
 /-! ### non-vacuity -/
 
@@ -378,5 +595,39 @@ example : DictCall.Closed ["p", "q"] [("r", (⟨["a"], fun _ => 0⟩ : Fn Int)),
   rcases hk with rfl | rfl
   · exact ⟨("p", fp), by simp, rfl, "q", by simp [fp], by simp⟩
   · exact ⟨("q", fq), by simp, rfl, "p", by simp [fq], by simp⟩
+
+/-- `Dict(a = 1, b = 2)(c = 10, y = lambda x, c: x + c, x = lambda a, b: a + b, a = lambda b: 100 + b)`:
+`a` redefines a key of the mapping, `x` must see the NEW `a`, `y` the new `x` -/
+private def sumFn (as : List String) (k : Int) : Fn Int := ⟨as, fun vs => vs.foldl (· + ·) k⟩
+private def exD : Env Int := [("a", 1), ("b", 2)]
+private def exCs : List (String × Fn Int) :=
+  [("y", sumFn ["x", "c"] 0), ("x", sumFn ["a", "b"] 0), ("a", sumFn ["b"] 100)]
+private def exTs : List (String × Fn Int) :=
+  [("a", sumFn ["b"] 100), ("x", sumFn ["a", "b"] 0), ("y", sumFn ["x", "c"] 0)]
+
+example : Topo exTs := by
+  refine ⟨?_, ?_, ?_, trivial⟩ <;> simp [sumFn]
+example : exTs.Perm exCs := (List.reverse_perm exTs).symm
+example : Acyclic exCs :=
+  (acyclic_iff_exists_topo exCs (by decide)).2
+    ⟨exTs, (List.reverse_perm exTs).symm, by refine ⟨?_, ?_, ?_, trivial⟩ <;> simp [sumFn]⟩
+example : call exD [("c", 10)] exCs =
+    .ok [("a", 102), ("b", 2), ("c", 10), ("x", 104), ("y", 114)] := rfl
+example : evalAll (setAll exD [("c", 10)]) exTs =
+    .ok [("a", 102), ("b", 2), ("c", 10), ("x", 104), ("y", 114)] := rfl
+example : WellScoped (setAll exD [("c", 10)]) exCs := by
+  intro c hc a ha
+  simp only [exCs, List.mem_cons, List.not_mem_nil, or_false] at hc
+  rcases hc with rfl | rfl | rfl <;> simp [sumFn] at ha <;> rcases ha with rfl | rfl <;> decide
+/-- an argument that is nowhere: `Missing`, and the call raises `TypeError` -/
+example : Missing exD [("x", sumFn ["a", "zz"] 0)] :=
+  ⟨("x", sumFn ["a", "zz"] 0), by simp, "zz", by simp [sumFn], by simp, by decide⟩
+example : call exD [] [("y", sumFn ["x"] 0), ("x", sumFn ["a", "zz"] 0)] = .error .type := rfl
+
+/-- a dictattr history: operators allocate, in-place writes hit their target only -/
+example : DAHeap.run [.new 2 [("a", (1 : Int)), ("b", 2)], .copy 0, .setAttr 1 "c" 3, .subK 0 "a", .delItem 1 "a",
+      .delAttr 0 "zz", .addH 2 1] =
+    [⟨2, [("a", 1), ("b", 2)]⟩, ⟨2, [("b", 2), ("c", 3)]⟩, ⟨2, [("b", 2)]⟩, ⟨2, [("b", 2), ("c", 3)]⟩] := rfl
+example : (DAHeap.Op.subK 0 "a" : DAHeap.Op Int).target ≠ some 0 := by decide
 
 end Pyg.Props.C16
